@@ -317,8 +317,16 @@ def in_model(export):
         if v["t"] == "dict":
             return all(ok(x) for _, x in v["v"])
         return True
+    def noref(v):           # configuration-valued defaults are outside the model (compared through __eq__)
+        if v["t"] == "ref":
+            return False
+        if v["t"] == "list":
+            return all(noref(x) for x in v["v"])
+        if v["t"] == "dict":
+            return all(noref(x) for _, x in v["v"])
+        return True
     return all(ok(v) for x in export["nodes"] for _, v in x["fields"]) and all(
-        a["default"] is None or ok(a["default"]) for c in export["classes"] for a in c["args"])
+        a["default"] is None or (ok(a["default"]) and noref(a["default"])) for c in export["classes"] for a in c["args"])
 
 
 # ------------------------------------------------------------------ signature-neutral edits (C02)
